@@ -239,8 +239,10 @@ def libRecord (fs : FS) (k : Kern) (lib : Lib) (r : NRec) : Option (Kern × Lib 
           | none => none
         | none => none
       -- (repaired) a directory that arrives without a watch to re-key gets its watches now
+      -- (repaired, D23) after re-keying, `_add_dir_watch` runs over the destination as well: a sub-directory that was made
+      -- just before the rename got no watch when its IN_CREATE was read (its path was gone by then)
       let (k2, lib2) := match rekeyed with
-        | some l => (k, l)
+        | some l => if lib.recursive && r.isDir then addTreeWatches fs k l src else (k, l)
         | none => if lib.recursive && r.isDir then addTreeWatches fs k lib src else (k, lib)
       some (k2, lib2, [ev])
     | .ignored =>
